@@ -606,7 +606,8 @@ class PropGen:
     """Scoping-valid, type-correct properties over random schemas (one schema per topic)."""
 
     def __init__(self, rng, maxdepth=3, kw_names=0.0, max_width=3, pred_prob=0.7, alias_prob=0.6,
-                 avoid=(), bias='plain', topics=None):
+                 avoid=(), bias='plain', topics=None, expose_disj_aliases=0.5):
+        self.expose_disj_aliases = expose_disj_aliases
         self.rng = rng
         self.maxdepth = maxdepth
         self.kw_names = kw_names
@@ -683,7 +684,9 @@ class PropGen:
                 alts.append(('ev', topic, alias, pred))
                 if alias is not None:
                     mine[alias] = sch
-            bound_aliases[pos] = mine
+            # aliases of a disjunction are visible to later events only sometimes: a later reference to
+            # an alias that not every alternative binds has no per-alternative decomposition
+            bound_aliases[pos] = mine if (w == 1 or r.random() < self.expose_disj_aliases) else {}
             events[pos] = alts[0] if w == 1 else ('disj', tuple(alts))
         meta = self.metadata(n) if with_meta else ()
         p = assemble(scope_kind, pat_kind, events, self.timebound(), meta)
